@@ -254,7 +254,7 @@ def main():
     gen_log = (g.stdout + g.stderr)[-2000:]
 
     # 1. proof obligations
-    ok_build, build_log = lean_build()
+    ok_build, build_log = lean_build('C16')
     audit = {'obligations': 0, 'discharged': 0, 'problems': ['lake build failed'], 'theorems': [],
              'checker_cmd': f'cd {LEAN} && lake build'}
     if ok_build:
